@@ -437,6 +437,14 @@ pub fn actions_strategy() -> impl Strategy<Value = Vec<Action>> {
         1 => prop::collection::vec(action_strategy(), 1..2),
         12 => prop::collection::vec(action_strategy(), 2..40),
         1 => prop::collection::vec(action_strategy(), 40..80),
+        // long vectors (above 64 and above 1024 elements), rarely
+        1 => prop::collection::vec(action_strategy(), 80..200).prop_flat_map(|v| (Just(v), 1usize..12)).prop_map(|(v, times)| {
+            let mut out = Vec::with_capacity(v.len() * times);
+            for _ in 0..times {
+                out.extend(v.iter().copied());
+            }
+            out
+        }),
     ]
 }
 
